@@ -47,7 +47,9 @@ def main(dirs):
         res = list(ex.map(seeded_eval.run_one, [d for d, _ in good]))
     for (d, v), r in zip(good, res):
         meta = json.load(open(os.path.join(d, 'meta.json')))
-        if d.startswith('/tmp/agents4/out_'):
+        if d.startswith('/tmp/agents5/out_'):
+            sid = d.replace('/tmp/agents5/out_', '').replace('/m', '-t')        # fifth round: Cxx-t1..t3
+        elif d.startswith('/tmp/agents4/out_'):
             sid = d.replace('/tmp/agents4/out_', '').replace('/m', '-s')        # fourth round: Cxx-s1..s3
         elif d.startswith('/tmp/agents3/out_'):
             sid = d.replace('/tmp/agents3/out_', '').replace('/m', '-r')        # third round: Cxx-r1..r3
